@@ -428,6 +428,60 @@ pub fn run() -> i32 {
                 }
             }
         }
+        // the repository's own duration vectors (duration.rs / functions.rs tests) through the parse-half replay body
+        for text in ["1s", "-1s", "1.1s", "1.5m", "1m1s", "1h1m1s", "1ms", "1us", "1ns", "1.1ns", "1.123us", "0s", "0h0m0s", "0h0m1s", "1000ms", "60s", "60m", "24h", "1h30m", "59m", "1h1m"] {
+            let mut v = vec![vec![text.len() as u8]];
+            v.extend(text.bytes().map(|b| vec![b]));
+            crate::sym::load(v);
+            n += 1;
+            if std::panic::catch_unwind(|| crate::node::c15_parse()).is_err() {
+                c11_bad += 1;
+                eprintln!("SELFTEST-FAIL: c15_parse: the reference reader disagrees with duration({:?})", text);
+            }
+        }
+        for test in 0..2u8 {
+            for depth in 1..=6u8 {
+                crate::sym::load(vec![vec![test], vec![depth]]);
+                n += 1;
+                if std::panic::catch_unwind(|| crate::node::c07_select_chain()).is_err() {
+                    c11_bad += 1;
+                    eprintln!("SELFTEST-FAIL: c07_select_chain: test={} depth={}", test, depth);
+                }
+            }
+        }
+        for mac in 0..5u8 {
+            for recv in 0..4u8 {
+                for body in 0..8u8 {
+                    if recv == 2 && body == 3 {
+                        continue;
+                    }
+                    crate::sym::load(vec![vec![mac], vec![recv], vec![body]]);
+                    n += 1;
+                    if std::panic::catch_unwind(|| crate::node::c10_body_over_variable()).is_err() {
+                        c11_bad += 1;
+                        eprintln!("SELFTEST-FAIL: c10_body_over_variable: macro={} receiver={} body={}", mac, recv, body);
+                    }
+                }
+            }
+        }
+        for f in [0.0f64, -0.0, 1.5, -2.25, f64::INFINITY, f64::NEG_INFINITY, f64::NAN, f64::MIN_POSITIVE, f64::MAX] {
+            crate::sym::load(vec![f.to_bits().to_le_bytes().to_vec()]);
+            n += 1;
+            if std::panic::catch_unwind(|| crate::node::c08_unary_minus_float()).is_err() {
+                c11_bad += 1;
+                eprintln!("SELFTEST-FAIL: c08_unary_minus_float: {:?}", f);
+            }
+        }
+        for mac in 0..5u8 {
+            for len in 1..=4u8 {
+                crate::sym::load(vec![vec![mac], vec![len]]);
+                n += 1;
+                if std::panic::catch_unwind(|| crate::node::c07_macro_over_literal()).is_err() {
+                    c11_bad += 1;
+                    eprintln!("SELFTEST-FAIL: c07_macro_over_literal: macro={} n={}", mac, len);
+                }
+            }
+        }
         for code in 0..=5u8 {
             crate::sym::load(vec![vec![code]]);
             n += 1;
